@@ -67,9 +67,7 @@ Definition cli_predict (files : list (str * list item * list str)) : option cli_
                         | Some f => resolve_imports st k f
                         | None => inl OutOfFuel
                         end, snd x)) files in
-      if existsb (fun r => match fst r with inl PanicMissingTarget => true | _ => false end) rs
-      then Some CliCrash
-      else if existsb (fun r => match fst r with inl _ => true | _ => false end) rs
+      if existsb (fun r => match fst r with inl _ => true | _ => false end) rs
       then
         (* a diagnostic is attributed to the file its position lies in (the file of the offending
            import line), whichever root the resolution started from *)
@@ -101,7 +99,6 @@ Definition agree (c : case) : bool :=
   | CImp files rp root out =>
       match model_outcome files rp root, out with
       | Some (inr ds), OOk ds' => list_eqb def_eqb ds ds'
-      | Some (inl PanicMissingTarget), OPanic msg => str_eqb (err_message PanicMissingTarget) msg
       | Some (inl OutOfFuel), _ => false
       | Some (inl e), OErr msg p =>
           str_eqb (err_message e) msg && option_eqb pos_eqb (err_pos e) (Some p)
@@ -111,7 +108,6 @@ Definition agree (c : case) : bool :=
       match cli_predict files, obs with
       | Some (CliDiags a), CliDiags b =>
           list_eqb (fun x y => subset_strs x y && subset_strs y x) a b
-      | Some CliCrash, CliCrash => true
       | _, _ => false
       end
   end.
